@@ -673,6 +673,12 @@ func c15(c *core.Ctx) {
 	c15Div(c, netClosure)
 	c15OpenDecode(c)
 
+	c.Clause("C15.12", "no transaction from the network has an unset *big.Int field: txdata.UnmarshalJSON refuses a JSON object that lacks gasPrice or amount (box sub transactions are JSON; GasPrice() and Amount() dereference untested)")
+	c.Run("big-fields-never-nil", func() { c15BigFieldsNeverNil(c) })
+
+	c.Clause("C15.13", "a request's numbers size no allocation: every make in package network has a constant size or one computed from lengths of values already in memory")
+	c.Run("allocations-not-sized-by-peer", func() { c15AllocationsNotSizedByPeer(c) })
+
 	c.Clause("C15.11", "no lock of the network layer is kept: a mutex field a function locks is unlocked (or its unlock deferred) before every return and before its loop comes round again")
 	c.Run("locks-released", func() { c15LocksReleased(c) })
 
